@@ -15,7 +15,7 @@ func init() { Monitors["C02"] = runC02 }
 
 func runC02(r *lib.Run) {
 	r.Rule = "tree from generator (seed,index); subtree = root or a random container/list entry with its absolute path as PathElem prefix; non-trivial = subtree has >=2 leaves; distinct by cfg+prefix+leaf set"
-	r.Assume("unkeyed lists excluded (no addressable path); union values canonical")
+	r.Assume("unkeyed lists excluded (no addressable path); union values unambiguous as JSON (even cases) or only as gNMI TypedValues (odd cases); list keys always unambiguous as strings")
 	n := r.N(400, 6000)
 	for _, cfg := range cfgsFor(r, quick3) {
 		for i := 0; i < n; i++ {
@@ -24,6 +24,7 @@ func runC02(r *lib.Run) {
 			opt.OrderedSiblings = i%7 == 0
 			opt.ZeroLenBinary = true
 			opt.PreciseDecimals = true
+			opt.GNMIUnions = i%2 == 1
 			if skip(cfg, i) {
 				continue
 			}
